@@ -328,4 +328,48 @@ func init() {
 		Old:    "\tfor _, b := range options1 {\n\t\tmatchingBranch, foundMatchingBranch := LookupBranchByLabel(options2, b.Label)\n\t\tif foundMatchingBranch {",
 		New:    "\tfoundMatchingBranch := false\n\tfor _, b := range options1 {\n\t\tvar matchingBranch *Option\n\t\tfor i := range options2 {\n\t\t\tif options2[i].Label == b.Label {\n\t\t\t\tmatchingBranch = &options2[i]\n\t\t\t\tfoundMatchingBranch = true\n\t\t\t\tbreak\n\t\t\t}\n\t\t}\n\t\tif foundMatchingBranch && matchingBranch != nil {",
 		Expect: "types.equalTypeBranch | loop-carried-flag"})
+	addFixture(Fixture{Name: "dup-copies-share-a-channel", Rule: "R-DIM-INDEX", File: "process/transition.go",
+		Old:    "newDuplicatedProcessBody.Substitute(processFreeNames[k], freshChannels[k][i])",
+		New:    "newDuplicatedProcessBody.Substitute(processFreeNames[k], freshChannels[k][0])",
+		Expect: "performDUPrule | index"})
+	addFixture(Fixture{Name: "cut-spawns-on-static-name", Rule: "R-SPAWN-LIVE", File: "process/transition.go",
+		Old:    "newProcess := NewProcess(newProcessBody, []Name{newChannel}, innerSessionType, LINEAR, process.Position)",
+		New:    "newProcess := NewProcess(newProcessBody, []Name{f.new_name_c}, innerSessionType, LINEAR, process.Position)",
+		Expect: "(*process.NewForm).Transition$1 | spawn-providers"})
+	addFixture(Fixture{Name: "type-compared-with-itself", Rule: "R-COMPARE-DISTINCT", File: "types/types.go",
+		Old:    "\treturn innerEqualType(type1, type2, make(map[string]bool), labelledTypesEnv)",
+		New:    "\treturn innerEqualType(type1, type1, make(map[string]bool), labelledTypesEnv)",
+		Expect: "types.EqualType | innerEqualType"})
+	addFixture(Fixture{Name: "equal-ignores-initialisation", Rule: "R-SUBST-CONTRA", File: "process/name.go",
+		Old:    "\treturn name1.Ident == name2.Ident && name1.Initialized() == name2.Initialized()",
+		New:    "\treturn name1.Ident == name2.Ident",
+		Expect: "state:"})
+	addFixture(Fixture{Name: "cut-moves-on-after-spawn", Rule: "R-SPAWN-OWNERSHIP", File: "process/transition.go",
+		Old:    "\t\tcurrentProcessBody.Substitute(f.new_name_c, newChannel)\n\t\tprocess.Body = currentProcessBody\n",
+		New:    "\t\tcurrentProcessBody.Substitute(f.new_name_c, newChannel)\n\t\tdefer func() { process.Body = currentProcessBody }()\n",
+		Expect: "new-process-body"})
+	addFixture(Fixture{Name: "send-arm-by-other-role", Rule: "R-POLARITY-COHERENT", File: "process/typechecker.go",
+		Old:    "\tif isProvider(p.to_c, providerShadowName) {\n\t\t// MulR: *",
+		New:    "\tif !isProvider(p.continuation_c, providerShadowName) {\n\t\t// MulR: *",
+		Expect: "(*process.SendForm).typecheckForm | role["})
+	addFixture(Fixture{Name: "send-records-swapped-types", Rule: "R-TYPE-RECORDED", File: "process/typechecker.go",
+		Old:    "\t\tp.to_c.Type = providerSendType\n\t\tp.payload_c.Type = foundLeftType\n\t\tp.continuation_c.Type = foundRightType\n",
+		New:    "\t\tp.to_c.Type = providerSendType\n\t\tp.payload_c.Type = foundRightType\n\t\tp.continuation_c.Type = foundLeftType\n",
+		Expect: "(*process.SendForm).typecheckForm | type-of:"})
+	addFixture(Fixture{Name: "exec-kept-once-per-function", Rule: "R-KIND-EXH", File: "parser/parser.go",
+		Old:    "\t\t\tnew_p := process.NewProcess(p.proc.Body, []process.Name{{Ident: fmt.Sprintf(\"exec%d\", execCount), IsSelf: true}}, function.Type, process.LINEAR, p.position)\n\t\t\tprocesses = append(processes, new_p)",
+		New:    "\t\t\tnew_p := process.NewProcess(p.proc.Body, []process.Name{{Ident: fmt.Sprintf(\"exec%d\", execCount), IsSelf: true}}, function.Type, process.LINEAR, p.position)\n\t\t\tif execCount < 2 {\n\t\t\t\tprocesses = append(processes, new_p)\n\t\t\t}",
+		Expect: "kind:EXEC_DEF"})
+	addFixture(Fixture{Name: "line-table-copied-per-newline", Rule: "R-PER-RUNE-CONST", File: "parser/scanner.go",
+		Old:    "\t\ts.pos.Lines = append(s.pos.Lines, s.pos.Char)",
+		New:    "\t\ts.pos.Lines = append(append([]int{}, s.pos.Lines...), s.pos.Char)",
+		Expect: "(*parser.scanner).read | constant-work-per-rune"})
+	addFixture(Fixture{Name: "function-looked-up-while-collecting", Rule: "R-COLLECT-THEN-RESOLVE", File: "parser/parser.go",
+		Old:    "\t\t\tfunctions = append(functions, p.function)\n",
+		New:    "\t\t\tif process.GetFunctionByNameArity(functions, p.function.FunctionName, 0) == nil {\n\t\t\t\tfunctions = append(functions, p.function)\n\t\t\t}\n",
+		Expect: "collection:functions"})
+	addFixture(Fixture{Name: "case-printer-caches-text", Rule: "R-PRINT-PURE", File: "process/form.go",
+		Old:    "func (p *SendForm) String() string {\n",
+		New:    "func (p *SendForm) String() string {\n\tp.to_c.Ident = p.to_c.Ident + \"\"\n",
+		Expect: "(*process.SendForm).String | printer:String"})
 }
